@@ -120,6 +120,9 @@ func (l *Loader) Next() (entry *BinEntry, err error) {
 			t = rtype
 		} else {
 			t = l.lastEntry.Type
+			// a continuation chunk of a split value belongs to the same key : it carries
+			// the key's expiry like the first chunk
+			entry.ExpireAt = l.lastEntry.ExpireAt
 		}
 		entry.Type = t
 		switch t {
